@@ -735,3 +735,9 @@ V('lt1-no-pushback', ['C12'], P,
   "                else:\n                    buf.back(lang_toks)\n                    if n < len(mac.defaults):", "                else:\n                    if n < len(mac.defaults):", 'LT1')
 V('lt1-skip-space-again', ['C12'], P,
   "            lang_toks = []\n            tok = buf.cur()\n            while buf.is_space(tok):\n                if type(tok) is defs.LanguageToken:\n                    lang_toks.append(tok)\n                tok = buf.next()\n", "            lang_toks = []\n            tok = buf.skip_space()\n", 'LT1')
+V('ck14-nofilter', ['C20'], 'yalafi/shell/checks.py',
+  "                        if m.group(0).isalpha() and not f(m))", "                        if not f(m))", 'CK14')
+V('ck14-neutral-order', ['C20'], 'yalafi/shell/checks.py',
+  "                        if m.group(0).isalpha() and not f(m))", "                        if not f(m) and m.group(0).isalpha())", [])
+V('ck15-joined', ['C20'], 'yalafi/shell/checks.py',
+  "    hits = list((m.start(0), m.end(0))\n                    for pat in accept for m in re.finditer(pat, plain))", "    alt = '|'.join(accept)\n    hits = list((m.start(0), m.end(0))\n                    for m in re.finditer(alt, plain)) if alt else []", 'CK15')
